@@ -156,6 +156,73 @@ fn judge_format(rec: &mut Rec, n: i64, hashed: bool, also_dt: bool) {
     }
 }
 
+/// The property's four formatted fields (e, D, w, q) in random company: a Date or a DateTime (any time of day — the
+/// first and the last hour of the local day in particular — under any offset) formatted with a pattern of the judged
+/// symbol plus 0–6 other symbols of the type; every e / D / w / q token of the output is compared with the documented
+/// rendering of the calendar model's value for the *local* day.
+fn judge_company(rec: &mut Rec, rng: &mut Rng, n: i64, tod: u64, off: i32, on_dt: bool) {
+    use super::diff::{sane_date, SKIP_START};
+    use crate::model::instant::sane_value;
+    use crate::model::fmt_spec::{render_run, Kind, Val};
+    use crate::model::instant::{D, NS};
+    use serde_json::Value;
+    rec.eval();
+    rec.api(if on_dt { "DateTime::format (e/D/w/q in random company)" } else { "Date::format (e/D/w/q in random company)" });
+    let kind = if on_dt { Kind::DateTime } else { Kind::Date };
+    let toks = super::fmtctx::company(rng, kind, &['e', 'D', 'w', 'q'], true);
+    let p = super::fmtctx::join(&toks);
+    // local day of the value
+    let i = n as i128 * D + tod as i128;
+    let local = i + off as i128 * NS;
+    let lday = local.div_euclid(D) as i64;
+    if !(cal::MIN_DAY + 2..=cal::MAX_DAY - 2).contains(&lday) || !(cal::MIN_DAY + 2..=cal::MAX_DAY - 2).contains(&n) {
+        return;
+    }
+    let ltod = local.rem_euclid(D) as u64;
+    rec.bin(if !on_dt { "company/date" } else if ltod < 3_600 * NS as u64 { "company/datetime-first-hour-of-the-local-day" } else if ltod >= 23 * 3_600 * NS as u64 { "company/datetime-last-hour-of-the-local-day" } else { "company/datetime-other-hours" });
+    rec.nontrivial(hash_i128s(&[i, off as i128, 0xC2]) ^ hash_str(&p));
+    let model = Val::new(kind, lday, ltod, off);
+    let got = if on_dt {
+        let Some((x, _)) = sane_value(i, off) else {
+            rec.bin(SKIP_START);
+            return;
+        };
+        trap(|| x.format(&p))
+    } else {
+        let Some(d) = sane_date(n) else {
+            rec.bin(SKIP_START);
+            return;
+        };
+        trap(|| d.format(&p))
+    };
+    let wit = |obs: Value| json!({"type": if on_dt { "DateTime" } else { "Date" }, "utc_day": n, "time_of_day_ns": tod, "offset": off, "local_day": lday, "pattern": p, "observed": obs});
+    match got {
+        Err(pn) => rec.violation(format!("C02|format-in-company|{}::format|panic|{},{}", if on_dt { "DateTime" } else { "Date" }, pn.class, pn.site()), || wit(pn.to_json())),
+        Ok(s) => {
+            let parts: Vec<&str> = s.split(super::fmtctx::SEP).collect();
+            if parts.len() != toks.len() {
+                // some other field printed the separator or nothing came out: not this property's business to say which
+                rec.bin("company/output-does-not-split(other-property)");
+                return;
+            }
+            for (k, (c, w)) in toks.iter().enumerate() {
+                if !"eDwq".contains(*c) {
+                    continue;
+                }
+                let Ok(want) = render_run(&model, *c, *w) else { continue };
+                if parts[k] != want {
+                    let others: String = { let mut v: Vec<char> = toks.iter().map(|t| t.0).filter(|x| x != c).collect(); v.sort(); v.dedup(); v.into_iter().collect() };
+                    let company = if others.is_empty() { "alone".to_string() } else if others.chars().any(|x| "abhHKkmsnXx".contains(x)) { "with-clock-fields".to_string() } else { "with-calendar-fields".to_string() };
+                    rec.violation(format!("C02|format-in-company|{}::format|wrong-field|{}|{}", if on_dt { "DateTime" } else { "Date" }, c, company), || wit(json!({"field": format!("{}x{}", c, w), "printed": parts[k], "calendar_model": want, "whole_output": s, "other_symbols": others})));
+                }
+            }
+        }
+    }
+    if rec.want_sample() {
+        rec.sample(|| wit(json!("(see verdict)")));
+    }
+}
+
 fn leak_bin_fmt(c: &'static str) -> &'static str {
     // same classes, reported under a "fmt:" prefix; a handful of distinct values, interned once
     use std::collections::HashMap;
@@ -370,6 +437,23 @@ pub fn run(ctx: &Ctx) -> PropResult {
     }
     // consecutive calls whose day numbers differ by a power-of-two number of days or weeks: what a memo with a
     // truncated or shifted key (week index << 6, day >> k, …) confuses, and independent random days never do
+    wls.push(Workload::cases("formatted_fields_in_random_company", ctx.count(250_000, 5_000_000), move |rec, idx, rng| {
+        let n = match rng.below(4) {
+            0 => cal::days_from_civil(rng.range_i64(-3000, 3000), 1, 1) + rng.range_i64(-8, 8),
+            1 => rng.range_i64(cal::days_from_civil(1990, 1, 1), cal::days_from_civil(2040, 1, 1)),
+            2 => rng.range_i64(-800, 800),
+            _ => rng.range_i64(cal::MIN_DAY + 400, cal::MAX_DAY - 400),
+        };
+        let on_dt = idx % 3 != 0;
+        let tod = match rng.below(4) {
+            0 => rng.below(3_600_000_000_000),
+            1 => 23 * 3_600_000_000_000 + rng.below(3_600_000_000_000),
+            2 => *rng.pick(&[0u64, 1, 86_399_999_999_999, 43_200_000_000_000]),
+            _ => rng.below(86_400_000_000_000),
+        };
+        let off = if on_dt && rng.chance(1, 2) { crate::model::instant::gen_offset(rng) } else { 0 };
+        judge_company(rec, rng, n, if on_dt { tod } else { 0 }, off, on_dt);
+    }));
     wls.push(Workload::cases("format_power_of_two_stride_pairs", ctx.count(20_000, 600_000), move |rec, _, rng| {
         let d0 = match rng.below(3) {
             0 => rng.range_i64(-800_000, 800_000),
@@ -518,6 +602,7 @@ pub fn run(ctx: &Ctx) -> PropResult {
         years.len()
     );
     meta.required_bins = vec![
+        "company/date", "company/datetime-first-hour-of-the-local-day", "company/datetime-last-hour-of-the-local-day", "company/datetime-other-hours",
         "weekday/BC/0", "weekday/BC/6", "weekday/AD/0", "weekday/AD/3", "doy366/BC", "doy366/AD",
         "yearstart/BC/week53", "yearstart/AD/week52", "yearstart/AD/week1", "yearend/AD/week1", "yearend/BC/week1", "yearend/AD/week53",
         "fmt:yearstart/BC/week53", "fmt:yearend/AD/week53", "fmt:yearend/BC/week1",
